@@ -68,7 +68,11 @@ def strategy():
         return {"chain": chain, "leaf": leaf, "items": items, "steps": steps, "stdin": draw(st.sampled_from([None, None, None, "closed", "null"])),
                 # the whole chain lives in a pid namespace of its own with 7-digit pids (pid, name and parent pid fill the stat line to its maximum)
                 "bigpid": draw(st.sampled_from([0, 0, 0, 0, 1000000, 4000000, 4194200])),
-                "pre_errno": [draw(st.sampled_from([0, 0, 0, 34, 34, 4, 22])) for _ in range(len(steps) + 1)]}
+                "pre_errno": [draw(st.sampled_from([0, 0, 0, 34, 34, 4, 22])) for _ in range(len(steps) + 1)],
+                # ancestors whose main thread has finished while another thread carries on (alive, named, with children -- but state Z in /proc)
+                "zleaders": sorted(set(draw(st.lists(st.integers(0, depth - 1), max_size=2)))) if draw(st.sampled_from([False, False, True])) else [],
+                # the caller gave up its privileges (root-owned ancestors: it may read their /proc entries but not signal them)
+                "leaf_uid": 65534 if (not steps and draw(st.sampled_from([False, False, True]))) else 0}
     return case()
 
 
@@ -88,7 +92,9 @@ def evaluate(env, c):
     one = lambda k: [drv.op("Q"), drv.op("e", pre[k]), drv.op_exec("e", b"/bin/x", [b"x"], [], ret=-1, err=2), drv.op("G")]
     ops = [drv.op("x", out + "/log"), drv.op("W", "log", out + "/log"), drv.op("C", ini)] + \
           ([drv.op("S", 0, c["stdin"])] if c.get("stdin") else []) + ([drv.op("g", c["bigpid"])] if c.get("bigpid") else []) + \
-          [drv.op("F", *c["chain"]), drv.op("N", c["leaf"])] + one(0)
+          ([drv.op("d", sum(1 << z for z in c["zleaders"]))] if c.get("zleaders") else []) + \
+          [drv.op("F", *c["chain"]), drv.op("N", c["leaf"])] + \
+          ([drv.op("U", c["leaf_uid"], c["leaf_uid"], c["leaf_uid"], c["leaf_uid"], c["leaf_uid"], c["leaf_uid"])] if c.get("leaf_uid") else []) + one(0)
     for k, (dist, newname) in enumerate(steps):
         ops += [drv.op("a", dist, newname)] + one(k + 1)
     res = d.scenario(ops)
@@ -145,6 +151,7 @@ def classify(c):
                 flips = True
     for flag, n in ((selfonly, "self-only"), (special, "special-chars"), (near, "prefix-near-miss"), (b"" in chain, "empty-named-ancestor"),
                     (PID1 in items, "pid-1-listed"), (bool(c.get("bigpid")), "pids:7-digits(own pid namespace)"), (bool(c.get("stdin")), "stdin:" + str(c.get("stdin"))),
+                    (bool(c.get("zleaders")), "ancestor-whose-main-thread-has-exited"), (bool(c.get("leaf_uid")), "unprivileged-caller-under-root-ancestors"),
                     (bool(st_), "history:ancestor-renamed-between-calls"), (flips, "history:verdict-changes"), (any(c.get("pre_errno", [])), "caller-errno-set")):
         if flag:
             cls.append(n)
